@@ -361,6 +361,37 @@ func genC15(w *bufio.Writer, r *rng, thorough bool) {
 			emit(w, "fr.bin %s %s", be32(grid[r.intn(len(grid))]), be32(grid[r.intn(len(grid))]))
 		}
 	}
+	// operand pairs whose RESULT lands on a limb-boundary value: product, sum and difference
+	bands := append([]*big.Int{}, grid...)
+	rinv := new(big.Int).ModInverse(two256, rMod)
+	for i := 0; i < 400; i++ { // results with zero top limb(s) and arbitrary lower limbs (reduction bands)
+		raw := new(big.Int).And(r.big256(), sub(pow2(uint(64*(1+r.intn(3)))), 1))
+		if r.coin(50) {
+			raw.Add(raw, new(big.Int).Lsh(big.NewInt(int64(1+r.intn(3))), uint(64*(1+r.intn(2)))))
+		}
+		raw.Mod(raw, rMod)
+		v := new(big.Int).Mul(raw, rinv)
+		bands = append(bands, v.Mod(v, rMod))
+	}
+	reps := 1
+	if thorough {
+		reps = 6
+	}
+	for rep := 0; rep < reps; rep++ {
+		for _, v := range bands {
+			x := r.frBig()
+			if x.Sign() == 0 {
+				x = big.NewInt(3)
+			}
+			y := new(big.Int).Mul(v, new(big.Int).ModInverse(x, rMod))
+			y.Mod(y, rMod)
+			emit(w, "fr.bin %s %s", be32(x), be32(y)) // x*y = v
+			d := new(big.Int).Sub(v, x)
+			emit(w, "fr.bin %s %s", be32(x), be32(d.Mod(d, rMod))) // x+y = v
+			sum := new(big.Int).Add(v, x)
+			emit(w, "fr.bin %s %s", be32(sum.Mod(sum, rMod)), be32(x)) // x-y = v
+		}
+	}
 	nb := 3000
 	if thorough {
 		nb = 100000
